@@ -113,9 +113,15 @@ impl Prop for PXSem {
             }
         }
         let mut v = json!({"stdin": bytes_to_json(&stdin), "delim": delim, "n": n, "L": l, "s": s, "x": rng.chance(1, 5), "r": rng.chance(1, 4),
-               "init": init, "cmdlen": cmdlen, "script": script, "afile": rng.chance(1, 4), "echo": false,
-               "t": rng.chance(1, 4), "P": if rng.chance(1, 4) { 1 + rng.below(4) } else { 0 }});
-        if rng.chance(1, 6) {
+               "init": init, "cmdlen": cmdlen, "script": script, "afile": false, "echo": false, "t": false, "P": 0});
+        // one run in five uses what XargsSem describes beyond the listed properties (-a FILE, -t, -P, no command)
+        let beyond = rng.chance(1, 5);
+        if beyond {
+            v["afile"] = json!(rng.chance(1, 2));
+            v["t"] = json!(rng.chance(1, 2));
+            v["P"] = json!(if rng.chance(1, 2) { 1 + rng.below(4) } else { 0 });
+        }
+        if beyond && rng.chance(1, 3) {
             // no command: xargs echoes (plain ASCII input, no -s, no initial arguments, nothing to fail)
             let ascii: Vec<u8> = stdin.iter().map(|b| if *b >= 128 { b'z' } else { *b }).collect();
             v["stdin"] = bytes_to_json(&ascii);
